@@ -1055,7 +1055,9 @@ func compileBreakStmt(context *funcContext, stmt *ast.BreakStmt) { // {{{
 	refupvalue := false
 	for block := context.Block; block != nil; block = block.Parent {
 		// a captured local of any block between the break and its loop must be closed as well
-		refupvalue = refupvalue || block.RefUpvalue
+		// (a closure that follows the break is not known yet, but it can only have been created when
+		// the break runs if a goto jumped back to a label in front of the break)
+		refupvalue = refupvalue || block.RefUpvalue || len(block.labels) > 0
 		if label := block.BreakLabel; label != labelNoJump {
 			if refupvalue {
 				context.Code.AddABC(OP_CLOSE, block.Parent.LocalVars.LastIndex(), 0, 0, sline(stmt))
